@@ -983,8 +983,12 @@ def run(ctx: Context, rep) -> None:
     _shared.check_fresh_pass(ctx, rep, "C02.fresh-pass")
     _shared.check_interleave_nonempty(ctx, rep, "C02.interleave")
     _shared.check_one_shot(ctx, rep, "C02.one-shot", ("sedpack.io", ))
-
-
+    # passes read the dataset the handle was opened on: the root is resolved
+    # by the file system, not lexically (same check as C20.reloc's root part)
+    from sa.rules.c20 import check_root_resolved as _crr
+    rep.rule("C02.root", "the value self.path keeps is <path>.resolve() on "
+             "every path through DatasetBase.__init__")
+    _crr(ctx, rep, "C02.root")
 
 _IT = "src/sedpack/io/itertools/itertools.py"
 _DI = "src/sedpack/io/dataset_iteration.py"
